@@ -134,7 +134,7 @@ func setOption(setOptionCommand string) {
 	}
 	if tokens[1] == currmoveLogIntervalKey {
 		val, err := strconv.Atoi(tokens[3])
-		if err == nil {
+		if err == nil && val >= currmoveLogIntervalMin && val <= currmoveLogIntervalMax {
 			currmoveLogInterval = val
 		}
 	}
